@@ -32,7 +32,14 @@ def run(chk, facts_dir, tier):
     ab = prog.body(WTP + "WriterThreadPool::append_events::{closure#0}")
     chk.analysed(ab.path)
     ev = Ev(prog, ab)
-    wb, wt = one_call(ab, "tokio::sync::watch::Receiver::<T>::wait_for")
+    waits = calls(ab, "tokio::sync::watch::Receiver::<T>::wait_for")
+    if not waits:
+        chk.fail("R1.1", WTP + "WriterThreadPool::append_events", "ok-without-wait", "append_events no longer waits for the synced offset before "
+                 "acknowledging: the append is acknowledged before it is fsynced and indexed", ab)
+        return {}
+    if len(waits) != 1:
+        raise Inconclusive("append_events: %d wait_for calls" % len(waits))
+    wb, wt = waits[0]
     oks = ok_return_blocks(ab)
     if not oks:
         raise Inconclusive("append_events: no Ok return found")
@@ -239,7 +246,8 @@ def run(chk, facts_dir, tier):
             good = False
             for (sbk, sv, sl) in m:
                 okr = [x for x, _ in ok_return_blocks(b)]
-                if okr and not must_pass(b, okr, [sbk]):
+                # the seek either precedes the store on every path, or follows it on every path to Ok
+                if b.dominates(sbk, i) or (okr and not must_pass(b, okr, [sbk], start=i)):
                     good = True
             if good:
                 chk.ok("R1.5", "Writer::%s seeks to the write offset it stores" % fn, b.where(line))
@@ -293,5 +301,65 @@ def run(chk, facts_dir, tier):
                      "'rolled back' to an offset of the old segment, which is a no-op, and its events stay in the new segment", hb, sl[0][1]["line"])
         else:
             chk.ok("R1.6", "set_len target is re-read after rollover on every path to handle_write", hb.where(sl[0][1]["line"]))
-    # set_len must be reached whenever handle_write failed: the Err edge
+    check_truncation_marker(chk, prog, "R1.7")
+    check_rollback_reached(chk, prog, hb, hev, hw, sl)
     return {}
+
+
+FLUSHERS = ("std::io::Write::flush", "std::io::Seek::seek", SEG + "sync", SEG + "flush_writer", "std::io::Write::write_all",
+            "std::io::Write::write")
+
+
+def check_truncation_marker(chk, prog, rule):
+    """R1.7: in Writer::set_len the zero truncation marker is written after the last flush of buffered
+    data (a later flush would overwrite it with the rejected records) and is synced before Ok."""
+    chk.rule(rule, "TRUNCATION MARKER: in seglog Writer::set_len the zero marker is written (positional write at the new offset) only after the "
+                   "buffered data was flushed, nothing flushes the BufWriter afterwards, and sync_data follows on the path to Ok")
+    b = prog.body(SEG + "set_len")
+    chk.analysed(b.path)
+    ev = Ev(prog, b)
+    marks = calls(b, "FileExt::write_all_at", "FileExt::write_at", suffix=True)
+    if len(marks) != 1:
+        chk.fail(rule, SEG + "set_len", "marker-missing", "set_len does not write exactly one truncation marker (found %d positional writes)" % len(marks), b)
+        return
+    mb, mt = marks[0]
+    at = strip(ev.operand(mt["args"][2], (mb, "T")))
+    if not (at[0] == "param" and at[2] == "offset"):
+        chk.fail(rule, SEG + "set_len", "marker-position", "the truncation marker is not written at the new offset: %s" % show(at), b, mt["line"])
+    flush_before = [bi for bi, t in calls(b, *FLUSHERS) if b.dominates(bi, mb)]
+    after = b.reach_after([mb])
+    flush_after = [(bi, t) for bi, t in calls(b, *FLUSHERS) if bi in after]
+    if not flush_before:
+        chk.fail(rule, SEG + "set_len", "marker-before-flush", "the truncation marker is written before the buffered records were flushed", b, mt["line"])
+    elif flush_after:
+        chk.fail(rule, SEG + "set_len", "flush-after-marker", "after the truncation marker is written the BufWriter is flushed again (%s at L%d): buffered bytes of the "
+                 "rejected write land on top of the marker, and a reopen adopts them as valid records" % ((flush_after[0][1]["f"].get("fn") or "").split("::")[-1], flush_after[0][1]["line"]), b, mt["line"])
+    else:
+        chk.ok(rule, "marker written after the last flush of buffered data", b.where(mt["line"]))
+    syncs = [bi for bi, t in calls(b, "std::fs::File::sync_data", "std::fs::File::sync_all") if bi in after]
+    okr = [x for x, s in ok_return_blocks(b)]
+    if syncs and not [x for x in must_pass(b, okr, syncs, start=mb)]:
+        chk.ok(rule, "marker is synced before set_len returns Ok", b.where(mt["line"]))
+    else:
+        chk.fail(rule, SEG + "set_len", "marker-not-synced", "the truncation marker is not fsynced on every path to Ok", b, mt["line"])
+
+
+def check_rollback_reached(chk, prog, hb, hev, hw, sl):
+    """R1.6b: the Err result of handle_write always reaches set_len before the reply is sent"""
+    from ..gate import switch_on
+    hwb = hw[0][0]
+    slb = sl[0][0]
+    sends = calls(hb, "tokio::sync::oneshot::Sender::<T>::send")
+    after_hw = hb.reach_after([hwb])
+    reply_after = [bi for bi, t in sends if bi in after_hw]
+    # find the is_err() switch on handle_write's result
+    ise = [(bi, t) for bi, t in calls(hb, "Result::<T, E>::is_err", suffix=True) if bi in after_hw]
+    ok = False
+    for bi, t in ise:
+        sw = switch_on(hb, t["target"], t["dest"]["l"])
+        if sw and slb in hb.reach_from([sw[0]]) and not [x for x in must_pass(hb, reply_after, [slb], start=sw[0])]:
+            ok = True
+    if ok:
+        chk.ok("R1.6", "a failed handle_write always reaches set_len before the reply", hb.where(sl[0][1]["line"]))
+    else:
+        chk.fail("R1.6", hb.path, "rollback-skipped", "there is a path from a failed handle_write to the reply that does not truncate the partial write", hb, sl[0][1]["line"])
